@@ -3,6 +3,7 @@ package apprig
 import (
 	"crypto/ecdsa"
 	"fmt"
+	"sort"
 	"strings"
 
 	"github.com/ethereum/go-ethereum/crypto"
@@ -236,7 +237,7 @@ func malformedTx(r *hx.Rand, u *Universe, g *genState, aim *Impl, nUniverse int,
 	bc := Payload{Kind: "bc", A: last.ActivationBlockNumber + uint64(r.Intn(2)), T: uint64(1 + r.Intn(nk)), I: last.KeyperConfigIndex + 1, Addrs: ks}
 	var p Payload
 	class := ""
-	switch r.Intn(9) {
+	switch r.Intn(13) {
 	case 0:
 		bc.T = 0
 		p, class = bc, "malformed:bc-threshold-0"
@@ -264,8 +265,52 @@ func malformedTx(r *hx.Rand, u *Universe, g *genState, aim *Impl, nUniverse int,
 	case 7:
 		ek := [][]byte{{}, {2, 1, 2, 3}, append([]byte{2}, bytesOf(0xFF, 32)...), append([]byte{5}, encKey(0)[1:]...), encKey(0)[:32]}[r.Intn(5)]
 		p, class = Payload{Kind: "ci", ValKey: valKey(signer), EncKey: ek}, "malformed:ci-encryption-key"
-	default:
+	case 8:
 		p, class = Payload{Kind: "ci", ValKey: append(valKey(signer), 1), EncKey: encKey(1)}, "malformed:ci-validator-key-length"
+	case 9: // a keyper listed twice in a row
+		i := r.Intn(len(bc.Addrs))
+		bc.Addrs = append(append(append([][]byte{}, bc.Addrs[:i+1]...), bc.Addrs[i]), bc.Addrs[i+1:]...)
+		if r.Bool() {
+			bc.T = uint64(len(bc.Addrs))
+		}
+		p, class = bc, "malformed:bc-repeated-keyper-adjacent"
+	case 10:
+		p, class = Payload{Kind: "nomsg"}, "malformed:no-inner-message"
+	default:
+		// a key generation message with an address entry longer than 20 bytes that ends in a keyper's address
+		eons := []uint64{}
+		for e := range aim.App.DKGMap {
+			eons = append(eons, e)
+		}
+		if len(eons) == 0 {
+			return nil, ""
+		}
+		sort.Slice(eons, func(i, j int) bool { return eons[i] < eons[j] })
+		e := eons[r.Intn(len(eons))]
+		ks := aim.App.DKGMap[e].Config.Keypers
+		if len(ks) < 2 {
+			return nil, ""
+		}
+		si := r.Intn(len(ks))
+		other := ks[(si+1+r.Intn(len(ks)-1))%len(ks)]
+		signer = -1
+		for i := 0; i < nUniverse; i++ {
+			if u.Addrs[i] == ks[si] {
+				signer = i
+			}
+		}
+		if signer < 0 {
+			return nil, ""
+		}
+		long := append(make([]byte, 1+r.Intn(12)), other.Bytes()...)
+		switch r.Intn(3) {
+		case 0:
+			p, class = Payload{Kind: "pe", A: e, Addrs: [][]byte{long}, Seq: [][]byte{{1, 2, 3}}}, "malformed:pe-address-length"
+		case 1:
+			p, class = Payload{Kind: "ac", A: e, Addrs: [][]byte{long}}, "malformed:ac-address-length"
+		default:
+			p, class = Payload{Kind: "ap", A: e, Addrs: [][]byte{long}, Seq: [][]byte{{7}}}, "malformed:ap-address-length"
+		}
 	}
 	return &TxSpec{Signer: signer, Chain: chain, Nonce: g.freshNonce(), P: p}, class
 }
